@@ -212,4 +212,28 @@ def decode (a : AEAD) (buffer : Bytes) (protocolId expireTimestamp : Nat) (xnonc
     | some t => .ok t
 
 end PrivateConnectToken
+/-! ### token generation (the random parts are explicit arguments) -/
+
+/-- `PrivateConnectToken::generate` -/
+def PrivateConnectToken.generate (clientId : Nat) (timeoutSeconds : Int) (serverAddresses : List Addr)
+    (userData clientToServerKey serverToClientKey : Bytes) : Res TokenGenErr PrivateConnectToken :=
+  if serverAddresses.length > C.NETCODE_TOKEN_MAX_ADDRESSES then .err .maxHostCount
+  else if serverAddresses.isEmpty then .err .noServerAddressAvailable
+  else .ok { clientId, timeoutSeconds
+             serverAddresses := serverAddresses.map some ++
+               List.replicate (C.NETCODE_TOKEN_MAX_ADDRESSES - serverAddresses.length) none
+             clientToServerKey, serverToClientKey, userData }
+
+/-- `ConnectToken::generate`; `current_time.as_secs() + expire_seconds` is an unchecked u64 addition -/
+def ConnectToken.generate (a : AEAD) (currentTime protocolId expireSeconds clientId : Nat) (timeoutSeconds : Int)
+    (serverAddresses : List Addr) (userData clientToServerKey serverToClientKey xnonce privateKey : Bytes) :
+    Res TokenGenErr ConnectToken :=
+  let expireTimestamp := asSecs currentTime + expireSeconds
+  if expireTimestamp > U64_MAX then .panic "token.rs generate: current_time.as_secs() + expire_seconds" else do
+  let priv ← PrivateConnectToken.generate clientId timeoutSeconds serverAddresses userData clientToServerKey serverToClientKey
+  let privateData ← priv.encode a protocolId expireTimestamp xnonce privateKey
+  pure { clientId, versionInfo := C.NETCODE_VERSION_INFO, protocolId, privateData
+         createTimestamp := asSecs currentTime, expireTimestamp, xnonce
+         serverAddresses := priv.serverAddresses, clientToServerKey, serverToClientKey, timeoutSeconds }
+
 end RenetVerif.Netcode
